@@ -181,7 +181,11 @@ pub fn check_static(input: &MNode, out: &MNode) -> Vec<(String, String)> {
             if same_in == 1 && same_out.len() == 1 && same_out[0].get_attr("id") != Some(id) {
                 v.push(("author-id-lost:token".to_string(), format!("token {:?} had author id {:?}; the only token with that text now has id {:?}", n.txt(), id, same_out[0].get_attr("id"))));
             }
-        } else if TWO_D.contains(&n.tag.as_str()) && !under_annotation.contains(id) && !(n.tag == "mmultiscripts" && n.kids.len() < 2) {
+        } else if TWO_D.contains(&n.tag.as_str())
+            && !under_annotation.contains(id)
+            // an mmultiscripts without (non-empty) scripts is replaced by its base, which then carries the id
+            && !(n.tag == "mmultiscripts" && n.kids.iter().skip(1).all(|k| k.tag == "none" || k.tag == "mprescripts" || crate::props::c01::renders_nothing(k)))
+        {
             // (4') no element of this kind disappeared or appeared: the author id is still on one of them
             // (displayed elements of the input; elements of the output that MathCAT did not create itself)
             fn count(t: &MNode, tag: &str) -> usize {
